@@ -115,7 +115,8 @@ class CoqTree:
         if t == 'g':
             return '(NGroup %s)' % self.group(n)
         if t == 'path':
-            return '(NPath %d %s %s)' % (self.s(n['id']), self.paint(n['fill']), self.paint(n['stroke']))
+            return '(NPath %d %s %s %s)' % (self.s(n['id']), 'true' if n.get('visible', True) else 'false',
+                                            self.paint(n['fill']), self.paint(n['stroke']))
         if t == 'image':
             sub = '(Some %s)' % self.group(n['svg']['root']) if n.get('svg') else 'None'
             return '(NImage %d %s)' % (self.s(n['id']), sub)
